@@ -247,3 +247,518 @@ package iterator
 //@   prop C12 C20 C04
 //@   ensures reverseSeqStep(s, next)
 //
+// FlatMap (own closures, same shape as fp.Iterator.FlatMap) and FilterMap.
+//
+//@ func FlatMap(opt, fn) result
+//@   prop C12 C20
+//@   ensures IterPos(opt) == 0
+//@   tag construction-pulls-nothing
+//@   loop 0 invariant IterPos(opt) < IterLen(opt) && (forall j int :: IterPosAtEntry(opt) <= j && j < IterPos(opt) ==> !fn(verifspec.IterAt[T](opt, j)).HasNext())
+//@   loop 0 decreases IterLen(opt) - IterPos(opt)
+//
+//@ ghost
+//@ func wrap[T any](r fp.Iterator[T]) fp.Iterator[T] {
+//@ 	return fp.MakeIterator(func() bool { return r.HasNext() }, func() T { return r.Next() })
+//@ }
+//@ func flatMapStep[T, U any](r fp.Iterator[T], inner fp.Iterator[U], q func(T) bool, mode int, next bool) bool {
+//@ 	mf := func(t T) fp.Iterator[U] {
+//@ 		if q(t) {
+//@ 			return wrap(inner)
+//@ 		}
+//@ 		return Empty[U]()
+//@ 	}
+//@ 	it := FlatMap(r, mf)
+//@ 	c0 := verifspec.IterPos(r) == 0 && verifspec.IterPos(inner) == 0
+//@ 	verifspec.Havoc(r, inner)
+//@ 	lr := verifspec.IterLen(r)
+//@ 	li := verifspec.IterLen(inner)
+//@ 	if mode == 1 {
+//@ 		verifspec.Assume(verifspec.IterPos(r) < lr && q(verifspec.IterAt[T](r, verifspec.IterPos(r))) && verifspec.IterPos(inner) < li)
+//@ 		it.Next()
+//@ 		verifspec.Havoc(r, inner)
+//@ 	}
+//@ 	pr := verifspec.IterPos(r)
+//@ 	pi := verifspec.IterPos(inner)
+//@ 	h1 := it.HasNext()
+//@ 	pr1 := verifspec.IterPos(r)
+//@ 	pi1 := verifspec.IterPos(inner)
+//@ 	h2 := it.HasNext()
+//@ 	if !c0 || h2 != h1 || verifspec.IterPos(r) != pr1 || verifspec.IterPos(inner) != pi1 || pi1 != pi {
+//@ 		return false
+//@ 	}
+//@ 	if mode == 1 && pi < li {
+//@ 		if !h1 || pr1 != pr {
+//@ 			return false
+//@ 		}
+//@ 	} else if pi >= li {
+//@ 		if h1 || pr1 != lr {
+//@ 			return false
+//@ 		}
+//@ 	} else {
+//@ 		if h1 && !(pr1 >= pr+1 && q(verifspec.IterAt[T](r, pr1-1)) && verifspec.Forall(func(j int) bool { return !(pr <= j && j < pr1-1) || !q(verifspec.IterAt[T](r, j)) })) {
+//@ 			return false
+//@ 		}
+//@ 		if !h1 && !(pr1 == lr && verifspec.Forall(func(j int) bool { return !(pr <= j && j < lr) || !q(verifspec.IterAt[T](r, j)) })) {
+//@ 			return false
+//@ 		}
+//@ 	}
+//@ 	if !next {
+//@ 		return true
+//@ 	}
+//@ 	if !h1 {
+//@ 		return Panics(it.Next()) && verifspec.IterPos(r) == pr1 && verifspec.IterPos(inner) == pi
+//@ 	}
+//@ 	v := it.Next()
+//@ 	return Eq(v, verifspec.IterAt[U](inner, pi)) && verifspec.IterPos(inner) == pi+1 && verifspec.IterPos(r) == pr1
+//@ }
+//@ func filterMapStep[T, U any](r fp.Iterator[T], fn func(T) fp.Option[U], mode int, next bool) bool {
+//@ 	it := FilterMap(r, fn)
+//@ 	c0 := verifspec.IterPos(r) == 0
+//@ 	verifspec.Havoc(r)
+//@ 	lr := verifspec.IterLen(r)
+//@ 	if mode == 1 {
+//@ 		verifspec.Assume(verifspec.IterPos(r) < lr && fn(verifspec.IterAt[T](r, verifspec.IterPos(r))).IsDefined())
+//@ 		it.Next()
+//@ 		verifspec.Havoc(r)
+//@ 	}
+//@ 	pr := verifspec.IterPos(r)
+//@ 	h1 := it.HasNext()
+//@ 	pr1 := verifspec.IterPos(r)
+//@ 	h2 := it.HasNext()
+//@ 	if !c0 || h2 != h1 || verifspec.IterPos(r) != pr1 {
+//@ 		return false
+//@ 	}
+//@ 	if h1 && !(pr1 >= pr+1 && fn(verifspec.IterAt[T](r, pr1-1)).IsDefined() && verifspec.Forall(func(j int) bool { return !(pr <= j && j < pr1-1) || !fn(verifspec.IterAt[T](r, j)).IsDefined() })) {
+//@ 		return false
+//@ 	}
+//@ 	if !h1 && !(pr1 == lr && verifspec.Forall(func(j int) bool { return !(pr <= j && j < lr) || !fn(verifspec.IterAt[T](r, j)).IsDefined() })) {
+//@ 		return false
+//@ 	}
+//@ 	if !next {
+//@ 		return true
+//@ 	}
+//@ 	if !h1 {
+//@ 		return Panics(it.Next()) && verifspec.IterPos(r) == pr1
+//@ 	}
+//@ 	v := it.Next()
+//@ 	return Eq(v, fn(verifspec.IterAt[T](r, pr1-1)).Get()) && verifspec.IterPos(r) == pr1 && !it.HasNext() == (forall j int :: pr1 <= j && j < lr ==> !fn(verifspec.IterAt[T](r, j)).IsDefined())
+//@ }
+//@ end
+//
+//@ lemma iterFlatMap[T, U any](r fp.Iterator[T], inner fp.Iterator[U], q func(T) bool, next bool)
+//@   prop C12 C20
+//@   ensures flatMapStep(r, inner, q, 0, next)
+//@   tag current-none
+//@   ensures flatMapStep(r, inner, q, 1, next)
+//@   tag current-some
+//
+//@ lemma iterFilterMap[T, U any](r fp.Iterator[T], fn func(T) fp.Option[U], next bool)
+//@   prop C12 C20
+//@   ensures filterMapStep(r, fn, 0, next)
+//@   tag current-none
+//@   ensures filterMapStep(r, fn, 1, next)
+//@   tag current-some
+//
+// Constructors and delegating functions.  seqStep / optionStep are the step
+// lemmas of fp.IteratorOfSeq / fp.IteratorOfOption replayed through every
+// function of this package that returns such an iterator.
+//
+//@ ghost
+//@ func seqStep[T any](it fp.Iterator[T], s []T, next bool) bool {
+//@ 	c0 := verifspec.Cell[int](it, "idx") == 0
+//@ 	verifspec.Havoc(it)
+//@ 	idx := verifspec.Cell[int](it, "idx")
+//@ 	verifspec.Assume(0 <= idx && idx <= len(s))
+//@ 	want := idx < len(s)
+//@ 	if !c0 || it.HasNext() != want || it.HasNext() != want || verifspec.Cell[int](it, "idx") != idx {
+//@ 		return false
+//@ 	}
+//@ 	if !next {
+//@ 		return Unchanged()
+//@ 	}
+//@ 	if !want {
+//@ 		return Panics(it.Next()) && verifspec.Cell[int](it, "idx") == idx
+//@ 	}
+//@ 	v := it.Next()
+//@ 	return Eq(v, s[idx]) && verifspec.Cell[int](it, "idx") == idx+1 && Unchanged()
+//@ }
+//@ func optionStep[T any](it fp.Iterator[T], o fp.Option[T], next bool) bool {
+//@ 	c0 := verifspec.Cell[bool](it, "first")
+//@ 	verifspec.Havoc(it)
+//@ 	first := verifspec.Cell[bool](it, "first")
+//@ 	want := first && o.IsDefined()
+//@ 	if !c0 || it.HasNext() != want || it.HasNext() != want || verifspec.Cell[bool](it, "first") != first {
+//@ 		return false
+//@ 	}
+//@ 	if !next {
+//@ 		return true
+//@ 	}
+//@ 	if !want {
+//@ 		return Panics(it.Next()) && verifspec.Cell[bool](it, "first") == first
+//@ 	}
+//@ 	v := it.Next()
+//@ 	return Eq(v, o.Get()) && !verifspec.Cell[bool](it, "first")
+//@ }
+//@ func emptyOK[T any]() bool {
+//@ 	it := Empty[T]()
+//@ 	return !it.HasNext() && !it.HasNext() && Panics(it.Next()) && !it.HasNext()
+//@ }
+//@ func generateOK[T any](g func() T) bool {
+//@ 	it := Generate(g)
+//@ 	return it.HasNext() && it.HasNext() && EqT(it.Next(), g()) && it.HasNext()
+//@ }
+//@ func fromPtrOK[T any](ptr *T) bool {
+//@ 	it := FromPtr(ptr)
+//@ 	if ptr == nil {
+//@ 		return !it.HasNext() && Panics(it.Next())
+//@ 	}
+//@ 	if !it.HasNext() || !it.HasNext() {
+//@ 		return false
+//@ 	}
+//@ 	v := it.Next()
+//@ 	return Eq(v, *ptr) && !it.HasNext() && !it.HasNext() && Panics(it.Next()) && Unchanged()
+//@ }
+//@ func consStep[T any](h T, tail fp.Iterator[T], next bool) bool {
+//@ 	it := Concat(h, wrap(tail))
+//@ 	if verifspec.IterPos(tail) != 0 || !it.HasNext() || !it.HasNext() || verifspec.IterPos(tail) != 0 {
+//@ 		return false
+//@ 	}
+//@ 	v0 := it.Next()
+//@ 	if !verifspec.Eq(verifspec.W[T](v0), verifspec.W[T](h)) || verifspec.IterPos(tail) != 0 {
+//@ 		return false
+//@ 	}
+//@ 	verifspec.Havoc(tail)
+//@ 	pt := verifspec.IterPos(tail)
+//@ 	want := pt < verifspec.IterLen(tail)
+//@ 	if it.HasNext() != want || it.HasNext() != want || verifspec.IterPos(tail) != pt {
+//@ 		return false
+//@ 	}
+//@ 	if !next {
+//@ 		return true
+//@ 	}
+//@ 	if !want {
+//@ 		return Panics(it.Next()) && verifspec.IterPos(tail) == pt
+//@ 	}
+//@ 	v := it.Next()
+//@ 	return Eq(v, verifspec.IterAt[T](tail, pt)) && verifspec.IterPos(tail) == pt+1
+//@ }
+//@ func liftStep[T, U any](r fp.Iterator[T], fn func(T) U, next bool) bool {
+//@ 	it := Lift(fn)(r)
+//@ 	verifspec.Havoc(it)
+//@ 	p0 := verifspec.IterPos(r)
+//@ 	want := p0 < verifspec.IterLen(r)
+//@ 	if it.HasNext() != want || it.HasNext() != want || verifspec.IterPos(r) != p0 {
+//@ 		return false
+//@ 	}
+//@ 	if !next {
+//@ 		return true
+//@ 	}
+//@ 	if !want {
+//@ 		return Panics(it.Next()) && verifspec.IterPos(r) == p0
+//@ 	}
+//@ 	return EqT(it.Next(), fn(verifspec.IterAt[T](r, p0))) && verifspec.IterPos(r) == p0+1
+//@ }
+//@ end
+//
+//@ lemma iterFromSeq[T any](s []T, next bool)
+//@   prop C12 C20 C04
+//@   ensures seqStep(FromSeq(s), s, next)
+//@   tag FromSeq
+//@   ensures seqStep(FromSlice(s), s, next)
+//@   tag FromSlice
+//@   ensures seqStep(Of(s...), s, next)
+//@   tag Of
+//
+//@ lemma iterFromOption[T any](o fp.Option[T], next bool)
+//@   prop C12 C20
+//@   ensures optionStep(FromOption(o), o, next)
+//
+//@ lemma iterEmptyGenerate[T any](g func() T)
+//@   prop C12 C20
+//@   ensures emptyOK[T]()
+//@   tag Empty
+//@   ensures generateOK(g)
+//@   tag Generate
+//
+//@ lemma iterFromPtr[T any](ptr *T)
+//@   prop C12 C20 C04
+//@   ensures fromPtrOK(ptr)
+//
+//@ lemma iterCons[T any](h T, tail fp.Iterator[T], next bool)
+//@   prop C12 C20
+//@   ensures consStep(h, tail, next)
+//
+//@ lemma iterLift[T, U any](r fp.Iterator[T], fn func(T) U, next bool)
+//@   prop C12 C20
+//@   ensures liftStep(r, fn, next)
+//
+// ---------------------------------------------------------------------------
+// Bounded agreement with the eager computation (literal inputs of length <= 3,
+// symbolic elements / functions; `option unroll`) and protocol interleavings.
+// Package seq cannot be imported here (seq -> option -> iterator), so the
+// eager result is written out (it is what seq.X returns on these inputs, see
+// /repo/seq/verif_contracts.go).  Stand-ins, reported as bounded.
+//
+//@ ghost
+//@ func proto[T any](it fp.Iterator[T], want []T, skip int) bool {
+//@ 	for k := 0; k < len(want); k++ {
+//@ 		if k != skip && skip != -2 {
+//@ 			if !it.HasNext() || !it.HasNext() {
+//@ 				return false
+//@ 			}
+//@ 		}
+//@ 		v := it.Next()
+//@ 		if !verifspec.Eq(verifspec.W[T](v), verifspec.W[T](want[k])) {
+//@ 			return false
+//@ 		}
+//@ 	}
+//@ 	return !it.HasNext() && !it.HasNext() && Panics(it.Next()) && !it.HasNext()
+//@ }
+//@ func protoAll[T any](mk func() fp.Iterator[T], want []T) bool {
+//@ 	return proto(mk(), want, -1) && proto(mk(), want, -2) && proto(mk(), want, 0) && proto(mk(), want, 1)
+//@ }
+//@ end
+//
+//@ lemma boundedMapZip[T, U any](a, b, c T, x, y U, fn func(T) U)
+//@   prop C12 C20
+//@   option unroll
+//@   ensures Eq(ToSeq(Map(FromSeq(fp.Seq[T]{a, b, c}), fn)), fp.Seq[U]{fn(a), fn(b), fn(c)})
+//@   ensures Eq(ToSeq(Zip(FromSeq(fp.Seq[T]{a, b, c}), FromSeq(fp.Seq[U]{x, y}))), fp.Seq[fp.Tuple2[T, U]]{{I1: a, I2: x}, {I1: b, I2: y}})
+//@   ensures Eq(ToSeq(Zip(FromSeq(fp.Seq[U]{x, y}), FromSeq(fp.Seq[T]{a, b, c}))), fp.Seq[fp.Tuple2[U, T]]{{I1: x, I2: a}, {I1: y, I2: b}})
+//@   ensures Eq(ToSeq(ZipWithIndex(FromSeq(fp.Seq[T]{a, b, c}))), fp.Seq[fp.Tuple2[int, T]]{{I1: 0, I2: a}, {I1: 1, I2: b}, {I1: 2, I2: c}})
+//@   ensures Eq(ToSeq(Zip3(Of(a, b), Of(x, y), Of(b, c, a))), fp.Seq[fp.Tuple3[T, U, T]]{{I1: a, I2: x, I3: b}, {I1: b, I2: y, I3: c}})
+//@   ensures protoAll(func() fp.Iterator[U] { return Map(Of(a, b), fn) }, []U{fn(a), fn(b)})
+//@   ensures protoAll(func() fp.Iterator[fp.Tuple2[T, U]] { return Zip(Of(a, b, c), Of(x, y)) }, []fp.Tuple2[T, U]{{I1: a, I2: x}, {I1: b, I2: y}})
+//@   ensures protoAll(func() fp.Iterator[fp.Tuple2[int, T]] { return ZipWithIndex(Of(a, b)) }, []fp.Tuple2[int, T]{{I1: 0, I2: a}, {I1: 1, I2: b}})
+//@   ensures Eq(ToSeq(Concat(a, Of(b, c))), fp.Seq[T]{a, b, c})
+//@   ensures Eq(ToSeq(ReverseSeq([]T{a, b, c})), fp.Seq[T]{a, b, c}.Reverse())
+//@   ensures Eq(ToSeq(ReverseSlice([]T{a, b})), fp.Seq[T]{b, a})
+//@   ensures protoAll(func() fp.Iterator[T] { return ReverseSeq([]T{a, b, c}) }, []T{c, b, a})
+//
+//@ lemma boundedRange()
+//@   prop C12 C20
+//@   option unroll
+//@   ensures Eq(ToSeq(Range(2, 5)), fp.Seq[int]{2, 3, 4})
+//@   ensures Eq(ToSeq(RangeClosed(2, 4)), fp.Seq[int]{2, 3, 4})
+//@   ensures len(ToSeq(Range(5, 5))) == 0 && len(ToSeq(Range(5, 2))) == 0 && len(ToSeq(RangeClosed(5, 4))) == 0
+//@   ensures protoAll(func() fp.Iterator[int] { return Range(-1, 2) }, []int{-1, 0, 1})
+//@   ensures protoAll(func() fp.Iterator[int] { return RangeClosed(7, 8) }, []int{7, 8})
+//
+//@ lemma boundedFolds[A, B any](a, b, c A, zero B, f func(B, A) B, ft func(B, A) fp.Try[B], fo func(B, A) fp.Option[B], fe func(A) error)
+//@   prop C12 C11 C02
+//@   option unroll
+//@   ensures EqT(Fold(Of(a, b, c), zero, f), f(f(f(zero, a), b), c))
+//@   ensures ft(zero, a).IsFailure() ==> EqT(FoldTry(Of(a, b, c), zero, ft), ft(zero, a))
+//@   ensures ft(zero, a).IsSuccess() && ft(ft(zero, a).Get(), b).IsFailure() ==> Eq(FoldTry(Of(a, b, c), zero, ft), ft(ft(zero, a).Get(), b))
+//@   ensures ft(zero, a).IsSuccess() && ft(ft(zero, a).Get(), b).IsSuccess() ==> Eq(FoldTry(Of(a, b, c), zero, ft), ft(ft(ft(zero, a).Get(), b).Get(), c))
+//@   ensures Eq(FoldTry(Of[A](), zero, ft), fp.Success(zero))
+//@   ensures !fo(zero, a).IsDefined() ==> EqT(FoldOption(Of(a, b, c), zero, fo), fo(zero, a))
+//@   ensures fo(zero, a).IsDefined() && fo(fo(zero, a).Get(), b).IsDefined() ==> Eq(FoldOption(Of(a, b, c), zero, fo), fo(fo(fo(zero, a).Get(), b).Get(), c))
+//@   ensures fe(a) != nil ==> EqT(FoldError(Of(a, b, c), fe), fe(a))
+//@   ensures fe(a) == nil && fe(b) != nil ==> FoldError(Of(a, b, c), fe) == fe(b)
+//@   ensures fe(a) == nil && fe(b) == nil ==> FoldError(Of(a, b, c), fe) == fe(c)
+//@   ensures Eq(ToSeq(Scan(Of(a, b, c), zero, f)), fp.Seq[B]{zero, f(zero, a), f(f(zero, a), b), f(f(f(zero, a), b), c)})
+//@   ensures protoAll(func() fp.Iterator[B] { return Scan(Of(a, b), zero, f) }, []B{zero, f(zero, a), f(f(zero, a), b)})
+//@   ensures protoAll(func() fp.Iterator[B] { return Scan(Of[A](), zero, f) }, []B{zero})
+//
+//@ lemma boundedReduceMinMax[T any](a, b, c T, m fp.Monoid[T], ord fp.Ord[T])
+//@   prop C12 C11
+//@   option unroll
+//@   ensures Eq(Reduce(Of(a, b), m), m.Combine(m.Combine(m.Empty(), a), b))
+//@   tag reduce2
+//@   ensures Eq(Reduce(Of[T](), m), m.Empty())
+//@   tag reduce0
+//@   ensures ord.Less(a, b) && ord.Less(b, c) && ord.Less(a, c) && !ord.Less(b, a) && !ord.Less(c, b) && !ord.Less(c, a) ==> Eq(Min(Of(a, b, c), ord), fp.Some(a)) && Eq(Min(Of(c, a, b), ord), fp.Some(a)) && Eq(Min(Of(b, c, a), ord), fp.Some(a))
+//@   tag min
+//@   ensures ord.Less(a, b) && ord.Less(b, c) && ord.Less(a, c) && !ord.Less(b, a) && !ord.Less(c, b) && !ord.Less(c, a) ==> Eq(Max(Of(a, b, c), ord), fp.Some(c)) && Eq(Max(Of(c, a, b), ord), fp.Some(c)) && Eq(Max(Of(b, c, a), ord), fp.Some(c))
+//@   tag max
+//@   ensures !Min(Of[T](), ord).IsDefined() && !Max(Of[T](), ord).IsDefined()
+//
+//@ lemma boundedFlatMap[T, U any](a, b, c T, g func(T) U, h func(T) U, fo func(T) fp.Option[U])
+//@   prop C12 C20
+//@   option unroll
+//@   ensures Eq(ToSeq(FlatMap(Of(a, b, c), func(t T) fp.Iterator[U] { return Of(g(t), h(t)) })), fp.Seq[U]{g(a), h(a), g(b), h(b), g(c), h(c)})
+//@   ensures fo(a).IsDefined() && !fo(b).IsDefined() && fo(c).IsDefined() ==> Eq(ToSeq(FilterMap(Of(a, b, c), fo)), fp.Seq[U]{fo(a).Get(), fo(c).Get()})
+//@   ensures Eq(ToSeq(Flatten(Of(Of(a), Of[T](), Of(b, c)))), fp.Seq[T]{a, b, c})
+//@   ensures fo(a).IsDefined() && !fo(b).IsDefined() && fo(c).IsDefined() ==> protoAll(func() fp.Iterator[U] { return FilterMap(Of(a, b, c), fo) }, []U{fo(a).Get(), fo(c).Get()})
+//@   ensures !fo(a).IsDefined() && !fo(b).IsDefined() ==> protoAll(func() fp.Iterator[U] { return FilterMap(Of(a, b), fo) }, []U{})
+//@   ensures protoAll(func() fp.Iterator[T] { return Flatten(Of(Of[T](), Of(a, b), Of[T](), Of(c))) }, []T{a, b, c})
+//
+// Applicative / product combinators: the eager results are those of seq.Map2 /
+// seq.Ap (cartesian product, outer loop over the first argument).
+//
+//@ lemma boundedApMap2[A, B, R any](a0, a1 A, b0, b1 B, f func(A, B) R, g0, g1 fp.Func1[A, R])
+//@   prop C12
+//@   option unroll
+//@   ensures Eq(ToSeq(Map2(Of(a0, a1), Of(b0, b1), f)), fp.Seq[R]{f(a0, b0), f(a0, b1), f(a1, b0), f(a1, b1)})
+//@   tag map2
+//@   ensures Eq(ToSeq(Ap(Of(g0, g1), Of(a0, a1))), fp.Seq[R]{g0(a0), g0(a1), g1(a0), g1(a1)})
+//@   tag ap
+//@   ensures Eq(ToSeq(Flap(Of(g0, g1))(a0)), fp.Seq[R]{g0(a0), g1(a0)})
+//@   tag flap
+//@   ensures Eq(ToSeq(Method1(Of(a0, a1), f)(b0)), fp.Seq[R]{f(a0, b0), f(a1, b0)})
+//@   tag method1
+//@   ensures Eq(ToSeq(Map2(Of(a0), Of(b0, b1), f)), fp.Seq[R]{f(a0, b0), f(a0, b1)})
+//@   tag map2-single
+//
+// Duplicate / Span / Partition: two iterators sharing one source.  The source
+// is a 3-element literal wrapped in a pull counter `n`.  s0..s5 is an arbitrary
+// schedule (true = pull on the left side); after every pull each side has
+// received exactly its prefix of the source and the source has been pulled
+// max(nl, nr) times (once per element, no look-ahead); afterwards both sides
+// are drained and must be exhausted.
+//
+//@ ghost
+//@ func dupOK[T any](a, b, c T, s0, s1, s2, s3, s4, s5 bool) bool {
+//@ 	n := 0
+//@ 	src := fp.IteratorOfSeq([]T{a, b, c}).TapEach(func(T) { n++ })
+//@ 	l, r := Duplicate(src)
+//@ 	if n != 0 {
+//@ 		return false
+//@ 	}
+//@ 	e := []T{a, b, c}
+//@ 	steps := []bool{s0, s1, s2, s3, s4, s5, true, true, true, false, false, false}
+//@ 	nl, nr := 0, 0
+//@ 	for k := 0; k < 12; k++ {
+//@ 		if steps[k] {
+//@ 			if nl == 3 {
+//@ 				if l.HasNext() {
+//@ 					return false
+//@ 				}
+//@ 				continue
+//@ 			}
+//@ 			if !l.HasNext() || !l.HasNext() {
+//@ 				return false
+//@ 			}
+//@ 			v := l.Next()
+//@ 			if !verifspec.Eq(verifspec.W[T](v), verifspec.W[T](e[nl])) {
+//@ 				return false
+//@ 			}
+//@ 			nl++
+//@ 		} else {
+//@ 			if nr == 3 {
+//@ 				if r.HasNext() {
+//@ 					return false
+//@ 				}
+//@ 				continue
+//@ 			}
+//@ 			if !r.HasNext() || !r.HasNext() {
+//@ 				return false
+//@ 			}
+//@ 			v := r.Next()
+//@ 			if !verifspec.Eq(verifspec.W[T](v), verifspec.W[T](e[nr])) {
+//@ 				return false
+//@ 			}
+//@ 			nr++
+//@ 		}
+//@ 		m := nl
+//@ 		if nr > m {
+//@ 			m = nr
+//@ 		}
+//@ 		if n != m {
+//@ 			return false
+//@ 		}
+//@ 	}
+//@ 	return nl == 3 && nr == 3 && n == 3 && !l.HasNext() && !r.HasNext() && Panics(l.Next()) && Panics(r.Next())
+//@ }
+//@ func pairOK[T any](l fp.Iterator[T], r fp.Iterator[T], wl []T, wr []T, s0, s1, s2, s3, s4, s5 bool) bool {
+//@ 	steps := []bool{s0, s1, s2, s3, s4, s5, true, true, true, false, false, false}
+//@ 	nl, nr := 0, 0
+//@ 	for k := 0; k < 12; k++ {
+//@ 		if steps[k] {
+//@ 			if nl == len(wl) {
+//@ 				if l.HasNext() {
+//@ 					return false
+//@ 				}
+//@ 				continue
+//@ 			}
+//@ 			if !l.HasNext() || !l.HasNext() {
+//@ 				return false
+//@ 			}
+//@ 			v := l.Next()
+//@ 			if !verifspec.Eq(verifspec.W[T](v), verifspec.W[T](wl[nl])) {
+//@ 				return false
+//@ 			}
+//@ 			nl++
+//@ 		} else {
+//@ 			if nr == len(wr) {
+//@ 				if r.HasNext() {
+//@ 					return false
+//@ 				}
+//@ 				continue
+//@ 			}
+//@ 			if !r.HasNext() || !r.HasNext() {
+//@ 				return false
+//@ 			}
+//@ 			v := r.Next()
+//@ 			if !verifspec.Eq(verifspec.W[T](v), verifspec.W[T](wr[nr])) {
+//@ 				return false
+//@ 			}
+//@ 			nr++
+//@ 		}
+//@ 	}
+//@ 	return nl == len(wl) && nr == len(wr) && !l.HasNext() && !r.HasNext() && Panics(l.Next()) && Panics(r.Next())
+//@ }
+//@ func spanOK[T any](a, b, c T, p func(T) bool, wl []T, wr []T, s0, s1, s2, s3, s4, s5 bool) bool {
+//@ 	l, r := Span(fp.IteratorOfSeq([]T{a, b, c}), p)
+//@ 	return pairOK(l, r, wl, wr, s0, s1, s2, s3, s4, s5)
+//@ }
+//@ func partitionOK[T any](a, b, c T, p func(T) bool, wl []T, wr []T, s0, s1, s2, s3, s4, s5 bool) bool {
+//@ 	l, r := Partition(fp.IteratorOfSeq([]T{a, b, c}), p)
+//@ 	return pairOK(l, r, wl, wr, s0, s1, s2, s3, s4, s5)
+//@ }
+//@ end
+//
+//@ lemma boundedDuplicate[T any](a, b, c T, s0, s1, s2, s3, s4, s5 bool)
+//@   prop C12 C20
+//@   option unroll
+//@   ensures dupOK(a, b, c, s0, s1, s2, s3, s4, s5)
+//
+//@ lemma boundedSpan[T any](a, b, c T, p func(T) bool, s0, s1, s2, s3, s4, s5 bool)
+//@   prop C12 C20
+//@   option unroll
+//@   ensures p(a) && p(b) && !p(c) ==> spanOK(a, b, c, p, []T{a, b}, []T{c}, s0, s1, s2, s3, s4, s5)
+//@   ensures p(a) && !p(b) && p(c) ==> spanOK(a, b, c, p, []T{a}, []T{b, c}, s0, s1, s2, s3, s4, s5)
+//@   ensures !p(a) ==> spanOK(a, b, c, p, []T{}, []T{a, b, c}, s0, s1, s2, s3, s4, s5)
+//@   ensures p(a) && p(b) && p(c) ==> spanOK(a, b, c, p, []T{a, b, c}, []T{}, s0, s1, s2, s3, s4, true)
+//@   ensures p(a) && p(b) && p(c) ==> spanOK(a, b, c, p, []T{a, b, c}, []T{}, s0, s1, s2, s3, s4, false)
+//
+//@ lemma boundedPartition[T any](a, b, c T, p func(T) bool, s0, s1, s2, s3, s4, s5 bool)
+//@   prop C12 C20
+//@   option unroll
+//@   ensures p(a) && !p(b) && p(c) ==> partitionOK(a, b, c, p, []T{a, c}, []T{b}, s0, s1, s2, s3, s4, s5)
+//@   ensures !p(a) && p(b) && !p(c) ==> partitionOK(a, b, c, p, []T{b}, []T{a, c}, s0, s1, s2, s3, s4, s5)
+//@   ensures p(a) && p(b) && p(c) ==> partitionOK(a, b, c, p, []T{a, b, c}, []T{}, s0, s1, s2, s3, s4, s5)
+//@   ensures !p(a) && !p(b) && !p(c) ==> partitionOK(a, b, c, p, []T{}, []T{a, b, c}, s0, s1, s2, s3, s4, s5)
+//
+// The zero-value fp.Iterator is an empty iterator for every function of the package.
+//
+//@ ghost
+//@ func zeroPairOK[T any](l fp.Iterator[T], r fp.Iterator[T]) bool {
+//@ 	return !l.HasNext() && !r.HasNext() && !l.HasNext() && Panics(l.Next()) && Panics(r.Next())
+//@ }
+//@ func zeroDupOK[T any](p func(T) bool) bool {
+//@ 	l1, r1 := Duplicate(fp.Iterator[T]{})
+//@ 	l2, r2 := Span(fp.Iterator[T]{}, p)
+//@ 	l3, r3 := Partition(fp.Iterator[T]{}, p)
+//@ 	return zeroPairOK(l1, r1) && zeroPairOK(l2, r2) && zeroPairOK(l3, r3)
+//@ }
+//@ end
+//
+//@ lemma zeroValue[T, U any](zero U, f func(U, T) U, ft func(U, T) fp.Try[U], fo func(U, T) fp.Option[U], fe func(T) error, fn func(T) U, fi func(T) fp.Iterator[U], fm func(T) fp.Option[U], m fp.Monoid[T], ord fp.Ord[T], p func(T) bool)
+//@   prop C20 C12
+//@   option unroll
+//@   ensures EqT(Fold(fp.Iterator[T]{}, zero, f), zero)
+//@   ensures Eq(FoldTry(fp.Iterator[T]{}, zero, ft), fp.Success(zero)) && Eq(FoldOption(fp.Iterator[T]{}, zero, fo), fp.Some(zero)) && FoldError(fp.Iterator[T]{}, fe) == nil
+//@   ensures Eq(Reduce(fp.Iterator[T]{}, m), m.Empty())
+//@   ensures len(ToSeq(fp.Iterator[T]{})) == 0 && len(ToSlice(fp.Iterator[T]{})) == 0
+//@   ensures !Min(fp.Iterator[T]{}, ord).IsDefined() && !Max(fp.Iterator[T]{}, ord).IsDefined()
+//@   ensures protoAll(func() fp.Iterator[U] { return Map(fp.Iterator[T]{}, fn) }, []U{})
+//@   ensures protoAll(func() fp.Iterator[U] { return FlatMap(fp.Iterator[T]{}, fi) }, []U{})
+//@   ensures protoAll(func() fp.Iterator[U] { return FilterMap(fp.Iterator[T]{}, fm) }, []U{})
+//@   ensures protoAll(func() fp.Iterator[fp.Tuple2[T, T]] { return Zip(fp.Iterator[T]{}, fp.Iterator[T]{}) }, []fp.Tuple2[T, T]{})
+//@   ensures protoAll(func() fp.Iterator[fp.Tuple2[int, T]] { return ZipWithIndex(fp.Iterator[T]{}) }, []fp.Tuple2[int, T]{})
+//@   ensures protoAll(func() fp.Iterator[U] { return Scan(fp.Iterator[T]{}, zero, f) }, []U{zero})
+//@   ensures protoAll(func() fp.Iterator[T] { return Flatten(fp.Iterator[fp.Iterator[T]]{}) }, []T{})
+//@   ensures zeroDupOK(p)
+//
